@@ -3,14 +3,15 @@
 # (Equivalent to `git -C /repo apply <patch>; check; git -C /repo checkout -- .`, but /repo itself stays
 # untouched, so background sweeps that read /repo are not disturbed.)
 set -u
+VROOT=$(cd "$(dirname "$0")/.." && pwd)
 id=$1; tier=${2:-quick}
-d=/verif/seeded/$id
+d=$VROOT/seeded/$id
 prop=$(python3 -c "import json;print(json.load(open('$d/meta.json'))['property'])" 2>/dev/null || cat "$d/.property")
 W=$(mktemp -d /tmp/verif-seedrepo-XXXXXX)
 trap 'rm -rf "$W"' EXIT
 rsync -a /repo/ "$W"/
 (cd "$W" && git checkout -q -- . 2>/dev/null; git apply "$d/patch.diff") || { echo "patch does not apply"; exit 2; }
-cd /verif
+cd "$VROOT"
 out=$(VERIF_REPO="$W" VERIF_SEED=${VERIF_SEED:-1} ./bin/verif check "$prop" --tier "$tier" 2>&1); rc=$?
 echo "$out" | grep -E "^(VIOLATION|KNOWN|RESULT|TROUBLE)" | cut -c1-300
 echo "$out" | grep -A3 "^VIOLATION" | grep -E "oracle=" | cut -c1-200 | head -5
